@@ -2,6 +2,7 @@ package rules
 
 import (
 	"fmt"
+	"go/token"
 	"go/types"
 	"sort"
 	"strings"
@@ -179,6 +180,25 @@ func runC18(c *core.Ctx) {
 			}
 		}
 		c.Check(ok && n > 0, "C18/size-check-effective", "sizeCheckUnmarshalizer.Unmarshal/size", fn.Pos(), "nil only when len(buff) ≤ maxSize", "nil is returned without the buffer length having been compared with the maximum size")
+		// the bound must be a function of the re-encoded object's size and the tolerance only: a bound that grows with the received buffer lets padding widen its own acceptance window
+		indep := true
+		core.Instrs(fn, func(in ssa.Instruction) {
+			b, isB := in.(*ssa.BinOp)
+			if !isB || (b.Op != token.GTR && b.Op != token.LSS && b.Op != token.GEQ && b.Op != token.LEQ) {
+				return
+			}
+			for _, pair := range [][2]ssa.Value{{b.X, b.Y}, {b.Y, b.X}} {
+				if core.ExprKey(pair[0]) == "len(p2)" {
+					for v := range core.BackwardReach(pair[1]) {
+						if v == ssa.Value(fn.Params[2]) {
+							indep = false
+						}
+					}
+				}
+			}
+		})
+		c.Check(indep, "C18/size-check-effective", "sizeCheckUnmarshalizer.Unmarshal/bound-independent-of-input", fn.Pos(), "the size bound derives from the re-encoded object and the configured delta, not from the received buffer",
+			"the maximum accepted size is computed from the received buffer itself: padded encodings widen their own acceptance window")
 	}
 }
 
